@@ -257,6 +257,7 @@ def run(ctx, sess):
     ctx.rule('C02.10', 'statistics describe the written samples also for fixed-point types: tracing the sample converter for every accepted type with a fixed-point position set, no converted value is rescaled (the samples read back are the plain integers, so a rescaled summary would not describe them)')
     ctx.rule('C02.11', 'entries of a level above 1 are contiguous: a summary chunk holds a whole number of the lower level\'s reductions, i.e. the divisibility the definition alignment establishes survives to the values it stores (shared with C16.7) - otherwise the writer drops the remainder entries of every chunk while the reader assumes none are missing')
     ctx.rule('C02.12', 'summaries stored in double are consumed in double: in the reader no value loaded from a 64-bit summary (an entry of jls_fsr_f64_summary_s, or an element behind a pointer to double) is converted to float - min, max and mean of 32-bit integer signals need more than 24 bits')
+    ctx.rule('C02.13', 'summaries of wide types are stored in double: evaluated for every accepted data type and several fixed-point positions, the summary entry width the writer chooses is 64 bits for every integer type of 32 bits or more and for f64 (an f32 entry holds 24 bits: min and max of such samples would be rounded), and it does not depend on the fixed-point position')
     ctx.rule('C02.5', 'shared: non-finite values are skipped at every level (C09.4); accumulator algebra of statistics.c - alias safety, empty operands, extremes, non-negative variance, no division by a zero count (C20.1-C20.5); the summary payload length covers every entry of either width (C05.11); the level-0 scratch is filled only up to its allocated length (C10.23)')
     columns_rule(ctx, P, 'C02.1')
     extremes_rule(ctx, P, 'C02.2')
@@ -274,6 +275,7 @@ def run(ctx, sess):
     relay(ctx, sess, _c05.run, {'C05.11': 'C02.5'}, minimum=1)
     relay(ctx, sess, _c10.run, {'C10.23': 'C02.5'}, minimum=2)
     f64_consumed_rule(ctx, P, 'C02.12')
+    summary_width_rule(ctx, P, 'C02.13')
     from . import c16 as _c16
     relay(ctx, sess, _c16.run, {'C16.7': 'C02.11'}, minimum=1)
     relay(ctx, sess, _c10.run, {'C10.28': 'C02.9'}, only_functions=('fsr_statistics', 'jls_core_fsr_statistics', 'rd_stats_chunk'), minimum=1)
@@ -452,3 +454,45 @@ def f64_consumed_rule(ctx, P, rule):
            '%d reader functions load 64-bit summary values; none converts one to float' % n if not bad else
            '%s converts a 64-bit summary value to float: the stored min / max / mean of a 32-bit integer signal is rounded to 24 bits before it is returned (2^31 - 1 comes back as 2^31)' % show(bad[0][2])[:70])
     ctx.floor('reader functions that load 64-bit summary values', n, 2)
+
+
+def summary_width_rule(ctx, P, rule):
+    from ..fd import trace_calls, Top, FD
+    from .defnorm import accepted_data_types
+    fn = P.fn('summary_entry_size', 'src/wr_fsr.c')
+    ctx.saw(fn, 1)
+    fd = FD(P)
+    psz = P.fn('jls_datatype_parse_size')
+    pbase = P.fn('jls_datatype_parse_basetype')
+    keys = set()
+    for b in fn.blocks.values():
+        for e in [ev.e for ev in b.events if getattr(ev, 'e', None) is not None] + ([b.cond] if b.cond is not None else []):
+            for m in walk(e):
+                if m.get('op') == 'member' and m.get('field') == 'data_type' and fn.path(m) is not None:
+                    keys.add(str(fn.path(m)))
+    if not keys:
+        raise AnalysisBroken('summary_entry_size does not read the data type')
+    bad = []
+    n = 0
+    for dt in sorted(accepted_data_types(P)):
+        w = fd.call(psz, [dt])
+        base = fd.call(pbase, [dt])
+        is_float = (base == 4) or (dt & 0xf) == 4
+        need64 = (w >= 32 and not is_float) or w == 64
+        for q in ((0,) if is_float else (0, 1, 8, 0xff)):
+            dtv = dt | (q << 16)
+            box = []
+            try:
+                trace_calls(P, fn, {k_: dtv for k_ in keys}, _retbox=box)
+            except Top:
+                raise AnalysisBroken('summary_entry_size not decidable for data type 0x%x' % dtv)
+            n += 1
+            r = box[0] if box else None
+            if need64 and r != 64:
+                bad.append('type 0x%x with position %d gets %s-bit entries' % (dt, q if q < 128 else q - 256, r))
+            elif r not in (32, 64):
+                bad.append('type 0x%x: entry width %s' % (dt, r))
+    ctx.ob(rule, not bad, fn.name, 'summary entry width by data type', fn.where(),
+           '%d (type, position) pairs evaluated: 64-bit entries for every integer type of 32 bits or more and for f64' % n if not bad else
+           '; '.join(bad[:3]) + ' (%d of %d pairs): minimum, maximum and mean of samples above 2^24 are rounded to float in every summary level' % (len(bad), n))
+    ctx.floor('(type, position) pairs of summary_entry_size', n, 20)
